@@ -132,83 +132,6 @@ fn predicate(te: &TypeEntry, bytes: &[u8], v: &Verdict, expect_valid: Option<boo
     }
 }
 
-fn mutate(r: &mut Rng, b: &[u8], is_table: bool) -> (Vec<u8>, &'static str) {
-    let mut v = b.to_vec();
-    let words = b.len() / 4;
-    let pick_word = |r: &mut Rng| -> usize {
-        if words == 0 {
-            0
-        } else if r.chance(2, 3) {
-            r.below(std::cmp::min(words, 24) as u64) as usize
-        } else {
-            r.below(words as u64) as usize
-        }
-    };
-    let k = r.below(16);
-    match k {
-        0..=5 if words > 0 => {
-            let w = pick_word(r) * 4;
-            let x = rd32(&v[w..]);
-            let (nx, tag) = match k {
-                0 => (x.wrapping_add(1), "u32+1"),
-                1 => (x.wrapping_sub(1), "u32-1"),
-                2 => (x.wrapping_add(4), "u32+4"),
-                3 => (x.wrapping_sub(4), "u32-4"),
-                4 => (0, "u32=0"),
-                _ => (if r.chance(1, 2) { 0xffff_ffff } else { b.len() as u32 }, "u32=extreme"),
-            };
-            v[w..w + 4].copy_from_slice(&nx.to_le_bytes());
-            (v, tag)
-        }
-        6 | 7 if !b.is_empty() => {
-            let p = r.below(b.len() as u64) as usize;
-            v[p] ^= 1 << r.below(8);
-            (v, "bitflip")
-        }
-        8 | 9 if !b.is_empty() => {
-            let p = if r.chance(1, 3) { b.len() - 1 } else { r.below(b.len() as u64) as usize };
-            v.truncate(p);
-            (v, "truncate")
-        }
-        10 | 11 => {
-            let n = r.range(1, 4);
-            for _ in 0..n {
-                v.push(if r.chance(1, 2) { 0 } else { r.below(256) as u8 });
-            }
-            (v, "extend")
-        }
-        12 if b.len() >= 4 => {
-            // extend and fix the total size word: only the inner structure is wrong
-            let n = r.range(1, 4) as usize;
-            for _ in 0..n {
-                v.push(0);
-            }
-            let l = v.len() as u32;
-            v[0..4].copy_from_slice(&l.to_le_bytes());
-            (v, "extend+fix-total")
-        }
-        13 | 14 if is_table && b.len() >= 4 && rd32(b) as usize == b.len() && (b.len() == 4 || (rd32(&b[4..]) as usize) <= b.len() && rd32(&b[4..]) >= 8 && rd32(&b[4..]) % 4 == 0) => {
-            let n = r.below(6) as usize;
-            let extra: Vec<u8> = (0..n).map(|_| r.below(256) as u8).collect();
-            (add_extra_field(b, &extra), "extra-table-field")
-        }
-        _ => {
-            if b.len() >= 8 {
-                // swap two words
-                let a = pick_word(r) * 4;
-                let c = pick_word(r) * 4;
-                let (x, y) = (rd32(&v[a..]), rd32(&v[c..]));
-                v[a..a + 4].copy_from_slice(&y.to_le_bytes());
-                v[c..c + 4].copy_from_slice(&x.to_le_bytes());
-                (v, "swap-words")
-            } else {
-                v.push(0);
-                (v, "extend")
-            }
-        }
-    }
-}
-
 fn key8(ty: &str, b: &[u8]) -> [u8; 8] {
     let mut h = new_blake2b();
     h.update(ty.as_bytes());
